@@ -2,7 +2,7 @@
 import ast
 
 from ..astutil import (call_name, calls_in, walk_no_nested, params_of, kw,
-                       bind_args)
+                       bind_args, is_const)
 from ..cfg import (cfg_of, loop_body_paths, expr_owner_node, reaching_defs)
 from ..loader import Program, AnalysisError, unparse
 from ..pathutil import (path_method_calls, facts_before, describe_path,
@@ -215,6 +215,54 @@ def rule_r1(chk, prog):
     chk.extra['C13.R1_defuse_queries'] = len(cl.memo)
 
 
+def _pairwise_id_test(m, text, popv):
+    """Does the expression (fact text) hold exactly when some child of the
+    popped node differs in identity from the rebuilt child at the same
+    position?  Recognised: any(... zip(<node>, <children>) ... .id != .id),
+    in map/lambda or generator form, or a helper of the module whose loop
+    over zip(<params>) returns True on the first differing id and False at
+    the end."""
+    try:
+        e = ast.parse(text, mode='eval').body
+    except SyntaxError:
+        return False
+
+    def id_ne(x):
+        return any(isinstance(c, ast.Compare) and len(c.ops) == 1
+                   and isinstance(c.ops[0], ast.NotEq)
+                   and all(isinstance(s_, ast.Attribute) and s_.attr == 'id'
+                           for s_ in (c.left, c.comparators[0]))
+                   for c in ast.walk(x))
+
+    def zips(x, names):
+        for c in ast.walk(x):
+            if isinstance(c, ast.Call) and call_name(c) == 'zip' and len(
+                    c.args) == 2:
+                a0 = unparse(c.args[0])
+                if a0 in names or a0.replace('.data', '') in names:
+                    return True
+        return False
+
+    if isinstance(e, ast.Call) and call_name(e) == 'any':
+        return zips(e, {popv}) and id_ne(e)
+    if isinstance(e, ast.Call) and call_name(e) in m.funcs and e.args and \
+            unparse(e.args[0]) == popv:
+        h = m.funcs[call_name(e)]
+        hp = params_of(h)
+        loops_ = [l for l in walk_no_nested(h) if isinstance(l, ast.For)]
+        if len(loops_) != 1 or not zips(loops_[0].iter, {hp[0]}):
+            return False
+        lp = loops_[0]
+        ifs = [i for i in ast.walk(lp) if isinstance(i, ast.If)]
+        ok = len(ifs) == 1 and id_ne(ifs[0].test) and any(
+            isinstance(r, ast.Return) and is_const(r.value, True)
+            for r in ifs[0].body)
+        last = h.body[-1]
+        return ok and isinstance(last, ast.Return) and is_const(
+            last.value, False) and not lp.orelse
+    return False
+
+
 def rule_r234(chk, prog):
     chk.rule('C13.R2', 'reduplicate reuses an original object only after '
              'testing that its identity has not been seen')
@@ -289,9 +337,9 @@ def rule_r234(chk, prog):
                           loc=m.loc(c), nontrivial=True)
                 # on the list arm the children must be unchanged
                 if (f'{popv}.is_leaf()', False) in before:
-                    unchanged = any(t.startswith('any(') and 'zip(' in t
-                                    and 'children' in t and not pol
-                                    for (t, pol) in before)
+                    unchanged = any(
+                        not pol and _pairwise_id_test(m, t, popv)
+                        for (t, pol) in before)
                     chk.check('C13.R2', where, f'{desc}: children unchanged',
                               unchanged, 'a list node is reused although '
                               'its children were not shown to be the '
